@@ -450,6 +450,7 @@ struct LibOut
   L v[R::Dof], a[R::Dof];  // knot units: vel*dt, acc*dt^2
   double vraw, araw;       // max |.| of the raw outputs (time units)
   L vmax, amax;
+  double only_dev = 0;     // largest coefficient difference between spl(t), spl(t, vel) and spl(t, vel, acc)
 };
 template<int K, typename G>
 LibOut<G> lib_eval(const smooth::BSpline<K, G> & spl, double t, double dt)
@@ -459,6 +460,14 @@ LibOut<G> lib_eval(const smooth::BSpline<K, G> & spl, double t, double dt)
   const G g = spl(t, vel, acc);
   LibOut<G> o;
   o.M    = matL(g);
+  {
+    // the value must not depend on which derivative outputs are requested
+    smooth::Tangent<G> v1;
+    const G g0 = spl(t), g1 = spl(t, v1);
+    const auto M0 = matL(g0), M1 = matL(g1);
+    o.only_dev = (double)std::max((M0 - o.M).maxabs(), (M1 - o.M).maxabs());
+    if (!(o.only_dev == o.only_dev)) o.only_dev = INFINITY;
+  }
   o.vraw = o.araw = 0;
   o.vmax = o.amax = 0;
   for (int i = 0; i < R::Dof; ++i) {
@@ -652,6 +661,7 @@ void eval_space(const char * gname, const Alpha<G> & A, const SeqPolicy & pol)
       cur_t          = t;
       lib[it]        = lib_eval<K, G>(spl, t, dt);
       const LibOut<G> & lo = lib[it];
+      c.judge("value is the same whichever derivative outputs are requested", lo.only_dev / std::max(1.0, (double)lo.M.maxabs()), 8 * EPSD);
       const L x = ((L)t - (L)t0) / (L)dt;
       const L w = 2 * (L)ulp(std::max(std::fabs(t), std::fabs(t0))) / (L)dt;
       xs[it]    = x;
